@@ -499,6 +499,10 @@ fn decode_oracle(seg: &[u8], strs: &mut Vec<String>) -> Value {
             .and_then(|v| v.get(name).and_then(|f| f.as_bool()))
             .unwrap_or(false) as u64
     };
+    // a JSON document is UTF-8 text (RFC 8259 8.1)
+    if std::str::from_utf8(seg).is_err() {
+        return Value::Null;
+    }
     match serde_json::from_slice::<Call<M>>(seg) {
         Ok(call) => {
             let [k, c, t, mut v] = call.method().code();
